@@ -126,7 +126,10 @@ class Ctx:
     def set_budget(self, seconds: float) -> None:
         """Wall-clock budget for the phase that starts now.  The first iteration of a phase always runs, so a loaded
         machine shrinks the workload but never empties it (an empty phase would be reported as inconclusive)."""
-        self.deadline = time.time() + seconds
+        # thorough budgets in the property modules are written for a one-hour run; VERIF_BUDGET_SCALE (default 0.4 for the
+        # thorough tier, 1 for quick) scales them so that one pass over all twenty thorough checks fits into a working day
+        scale = float(os.environ.get("VERIF_BUDGET_SCALE", "1" if self.tier == "quick" else "0.4"))
+        self.deadline = time.time() + seconds * scale
         self._polls = 0
 
     def out_of_time(self) -> bool:
